@@ -128,7 +128,10 @@ def _interference_job(args):
             for cid in set(a) | set(b):
                 if cid in mons:
                     continue
-                x, y = sorted(a.get(cid, [])), sorted(b.get(cid, []))
+                # (the BecomeMonitor call itself is a message like any other: a connection that eavesdrops on calls to the bus sees
+                #  it in the first run; the second run has a hang-up in its place)
+                x = sorted(l for l in a.get(cid, []) if (" member=" + b"BecomeMonitor".hex() + " ") not in (l + " "))
+                y = sorted(b.get(cid, []))
                 if x != y:
                     diffs.append("step %d, connection %d: with the monitor %s, without %s" % (i, cid, x[:3], y[:3]))
             j += 1
